@@ -181,4 +181,31 @@ def groupsUpdate {σ ρ : Type} (a : Acc σ ρ) (sts : List σ) (rows : List GRo
 /-- `EmitTo::First(n)`: emit the first `n` groups, the others shift down -/
 def emitFirst {σ : Type} (n : Nat) (sts : List σ) : List σ × List σ := (sts.take n, sts.drop n)
 
+/-! ### `NullState`: which groups have seen a (non-NULL, filter-passing) value
+
+    functions-aggregate-common/src/aggregate/groups_accumulator/accumulate.rs: `SeenValues::All { num_values }` is the
+    fast path "every group so far has seen a value" (entered by NULL-free, filter-free batches: `num_values =
+    total_num_groups`), `SeenValues::Some { values }` a bitmap.  `get_builder` turns the counter into a bitmap
+    (`num_values` trues, then falses up to `total_num_groups`); `build(EmitTo::First(n))` emits the validity of the
+    first `n` groups and keeps the rest: the counter is decreased by `n` (saturating), the bitmap is split. -/
+inductive Seen where
+  | all (num : Nat)
+  | some (bits : List Bool)
+  deriving Repr, DecidableEq
+
+/-- has group `i` seen a value? -/
+def Seen.get : Seen → Nat → Bool
+  | .all n, i => decide (i < n)
+  | .some b, i => b.getD i false
+
+/-- `get_builder(total_num_groups)` -/
+def Seen.builder : Seen → Nat → List Bool
+  | .all n, total => List.replicate n true ++ List.replicate (total - n) false
+  | .some b, total => b ++ List.replicate (total - b.length) false
+
+/-- `build(EmitTo::First(n))`: (validity of the emitted groups, tracker of the remaining groups) -/
+def Seen.buildFirst : Seen → Nat → List Bool × Seen
+  | .all k, n => (List.replicate n true, .all (k - n))
+  | .some b, n => (b.take n, .some (b.drop n))
+
 end DfModel.Mech.AggAcc
